@@ -374,6 +374,16 @@ func cmdCheck(args []string) int {
 			if funcFails[fn] || failedFn[fn] != "" {
 				continue // already reported through its obligations
 			}
+			inGolden := false
+			for g := range golden {
+				if strings.HasPrefix(g, fn+"/") {
+					inGolden = true
+					break
+				}
+			}
+			if !inGolden {
+				continue // a function that is not part of the committed claim yet
+			}
 			viols = append(viols, viol{Obligation: fn + "/assumption", Reason: "new-assumption",
 				Detail: "the check of this function now relies on an assumption that is not in the committed list: " + a})
 		}
